@@ -4,13 +4,14 @@ import (
 	"context"
 	"errors"
 	"fmt"
+	"os"
 	"strings"
 	"time"
 
 	"github.com/LiskHQ/lisk-engine/pkg/blockchain"
 	"github.com/LiskHQ/lisk-engine/pkg/codec"
-	"github.com/LiskHQ/lisk-engine/pkg/consensus/validator"
 	csync "github.com/LiskHQ/lisk-engine/pkg/consensus/sync"
+	"github.com/LiskHQ/lisk-engine/pkg/consensus/validator"
 	"github.com/LiskHQ/lisk-engine/pkg/db"
 	"github.com/LiskHQ/lisk-engine/pkg/log"
 	"github.com/LiskHQ/lisk-engine/pkg/p2p"
@@ -30,14 +31,14 @@ type chainReq struct {
 	IDs []uint64 `json:"ids,omitempty"` // hcb: requested ID codes ; bfi: one code
 	Bad string   `json:"bad,omitempty"` // malformed variant: hcb-nil, hcb-garbage, hcb-empty, hcb-shortid, bfi-nil, bfi-garbage, bfi-shortid
 	// observation
-	Wrote  bool     `json:"wrote"`            // w.Write was called
-	Nil    bool     `json:"nil"`              // ... with nil / empty data
-	ErrSet bool     `json:"errset"`           // w.Error was called
-	Out    []uint64 `json:"out"`              // hcb: [code] ; bfi: codes of the returned blocks in response order ; last: [code]
-	OutH   []uint32 `json:"outh"`             // heights of the returned blocks in response order
-	Panic  string   `json:"panic,omitempty"`  // recovered panic site
-	Hang   bool     `json:"hang,omitempty"`   // watchdog
-	Undec  bool     `json:"undec,omitempty"`  // response not decodable
+	Wrote  bool     `json:"wrote"`           // w.Write was called
+	Nil    bool     `json:"nil"`             // ... with nil / empty data
+	ErrSet bool     `json:"errset"`          // w.Error was called
+	Out    []uint64 `json:"out"`             // hcb: [code] ; bfi: codes of the returned blocks in response order ; last: [code]
+	OutH   []uint32 `json:"outh"`            // heights of the returned blocks in response order
+	Panic  string   `json:"panic,omitempty"` // recovered panic site
+	Hang   bool     `json:"hang,omitempty"`  // watchdog
+	Undec  bool     `json:"undec,omitempty"` // response not decodable
 }
 
 type chainRec struct {
@@ -54,7 +55,7 @@ type capWriter struct {
 	errSet bool
 }
 
-func (w *capWriter) Write(d []byte) { w.wrote = true; w.data = d }
+func (w *capWriter) Write(d []byte)  { w.wrote = true; w.data = d }
 func (w *capWriter) Error(err error) { w.errSet = true }
 
 var sharedConn *p2p.Connection
@@ -79,7 +80,7 @@ func mkBlock(height uint32, prev []byte, salt uint32) *blockchain.Block {
 		TransactionRoot: z, AssetRoot: z, EventRoot: z, StateRoot: z, ValidatorsHash: z,
 		MaxHeightPrevoted: 0, MaxHeightGenerated: 0,
 		AggregateCommit: &blockchain.AggregateCommit{Height: 0, AggregationBits: []byte{}, CertificateSignature: []byte{}},
-		Signature: make([]byte, 64),
+		Signature:       make([]byte, 64),
 	}
 	b := &blockchain.Block{Header: h, Assets: blockchain.BlockAssets{}, Transactions: []*blockchain.Transaction{}}
 	b.Init()
@@ -164,7 +165,9 @@ func runChain(heights [3]uint32, cache int, reqs []chainReq) (rec chainRec) {
 	noProc := func(ctx context.Context, block *blockchain.Block, publish bool, removeTemp bool) error {
 		return errors.New("not used")
 	}
-	noRev := func(ctx context.Context, deletingBlock *blockchain.Block, saveTemp bool) error { return errors.New("not used") }
+	noRev := func(ctx context.Context, deletingBlock *blockchain.Block, saveTemp bool) error {
+		return errors.New("not used")
+	}
 	syncer := csync.NewSyncer(chain, validator.NewBlockSlot(0, 10), getConn(), lg, noProc, noRev)
 
 	for i := range rec.Reqs {
@@ -283,7 +286,7 @@ func genHandlers(o *hx.Out, r *hx.Rng, n int) {
 		case 1:
 			g0 = uint32(r.Intn(1000))
 		case 2:
-			g0 = 0xffffffff - uint32(100+r.Intn(160)) // heights close to the uint32 limit
+			g0 = 0xfffffffe - uint32(100+r.Intn(160)) // heights close to the uint32 limit
 		default:
 			g0 = uint32(r.Intn(50))
 		}
@@ -294,8 +297,10 @@ func genHandlers(o *hx.Out, r *hx.Rng, n int) {
 		case 1:
 			length = uint32(20 + r.Intn(40))
 		}
-		if uint64(g0)+uint64(length) > 0xffffffff {
-			length = 0xffffffff - g0
+		// tip height at most 2^32-2: with a tip at 2^32-1 the loop `for h := from; h <= to; h++` of
+		// DataAccess.GetBlocksBetweenHeight never terminates (documented, outside the handler model)
+		if uint64(g0)+uint64(length) > 0xfffffffe {
+			length = 0xfffffffe - g0
 		}
 		del := uint32(0)
 		if r.Intn(3) == 0 && length > 0 {
@@ -355,6 +360,9 @@ func genHandlers(o *hx.Out, r *hx.Rng, n int) {
 			default:
 				reqs = append(reqs, chainReq{T: "bad", Bad: bads[r.Intn(len(bads))]})
 			}
+		}
+		if os.Getenv("VERIF_DEBUG") != "" {
+			fmt.Fprintln(os.Stderr, "chain", g0, length, del, cache)
 		}
 		o.Put(runChain([3]uint32{g0, length, del}, cache, reqs))
 	}
